@@ -115,6 +115,20 @@ never reaches the `unwrap` failure) and back to the same byte. -/
 theorem C13_status_roundtrip : ∀ b : Fin 256, Status.ofByte b.val ≠ .crash ∧ Status.toByte (Status.ofByte b.val) = b.val := by
   decide +kernel
 
+/-- every status value: the known codes of both tables and every byte of the three ranges -/
+def allValues : List Status.Status :=
+  (List.range Ctap.ctap2Error.length).map .ctap2Known ++ (List.range Ctap.u2FError.length).map .ctap1
+    ++ ((List.range 256).filter (Status.inRanges Ctap.unknownSpecErrorRanges)).map .ctap2Other
+    ++ ((List.range 256).filter (Status.inRanges Ctap.extensionErrorRanges)).map .ctap2Extension
+    ++ ((List.range 256).filter (Status.inRanges Ctap.vendorErrorRanges)).map .ctap2Vendor
+
+/-- **Exactly one status value per byte**: converting any status value to its byte and back yields the
+same value — the error families do not overlap — with the one documented exception that the U2F
+success code shares 0x00 with the CTAP2 one. -/
+theorem C13_status_values_distinct :
+    ∀ v ∈ allValues, Status.toByte v = 0 ∨ Status.ofByte (Status.toByte v) = v := by
+  decide +kernel
+
 /-- **Client mapping**: "no credentials" (0x2E) is reported as credential-not-found, every other status
 byte is passed through unchanged. -/
 theorem C13_client_status_map : ∀ b : Fin 256,
